@@ -196,8 +196,14 @@ def build_fn(f, sources, fnmeta):
         blines[pos:pos] = txt
     inj_body = '\n'.join(blines)
     contract = '\n'.join(f.contract)
-    full = '\n'.join(f.attrs + [sig + ('\n' + contract if contract.strip() else '') + '\n' + inj_body])
-    twin = make_twin(sig, contract, o.get('rename', o['name']))
+    if lost:
+        # some proof hints of this function no longer find their place: the function is NOT verified this run (its
+        # contract is assumed for the callers) and is reported as undecided; the Kani stage is asked instead
+        full = '\n'.join([a for a in f.attrs if 'spinoff' not in a and 'no_decreases' not in a] + ['#[verifier::external_body]', sig + ('\n' + contract if contract.strip() else '') + '\n{ unimplemented!() }'])
+        twin = None
+    else:
+        full = '\n'.join(f.attrs + [sig + ('\n' + contract if contract.strip() else '') + '\n' + inj_body])
+    twin = None if lost else make_twin(sig, contract, o.get('rename', o['name']))
     if twin:
         full += '\n' + twin
     meta = {
